@@ -33,16 +33,16 @@ SHRINK_KEYS = ["a", "b"]
 
 
 def valid(case):
-    return not N.schema_errors(case["a"]) and not N.schema_errors(case["b"])
+    return not N.schema_errors(case["a"], unique_ids=False) and not N.schema_errors(case["b"], unique_ids=False)
 
 
 def budget(tier):
-    return 1600 if tier == "quick" else 40000
+    return 4000 if tier == "quick" else 60000
 
 
 def strategy(tier):
     mc = 5 if tier == "quick" else 8
-    return st.tuples(N.pair(max_cells=mc), st.integers(0, 3)).map(
+    return st.tuples(N.pair(max_cells=mc, dup_ids=True), st.integers(0, 3)).map(
         lambda t: {"a": t[0][0], "b": t[0][1], "rel": t[0][2], "file": t[1] == 0})
 
 
@@ -155,7 +155,10 @@ def run_case(case):
             out.fail("reference_patcher", "refpatch_differs_from_target", _first_difference(r, b))
     except RefPatchError as e:
         out.fail("reference_patcher", "refpatch_rejects_diff", str(e))
-    if case.get("file"):
+    dup = N.has_duplicate_ids(a) or N.has_duplicate_ids(b)
+    if dup:
+        out.label("duplicate_ids")     # schema-valid, but nbformat.write/read re-ids duplicates randomly: no file clause
+    if case.get("file") and not dup:
         out.label("file_interface")
         file_roundtrip(a, b, out)
     return out
